@@ -26,4 +26,12 @@ man = {
  'notes': 'See DESIGN.md. Known findings: known_findings.json. Seeded changes: seeded/.',
 }
 json.dump(man, open(os.path.join(root, 'MANIFEST.json'), 'w'), indent=1)
+# known_findings.json is assembled from known_findings.d/*.json (lists of entries), never at check time
+entries = []
+for f in sorted(glob.glob(os.path.join(root, 'known_findings.d', '*.json'))):
+    entries += json.load(open(f))
+doc = {'_comment': 'assembled by tools/mkmanifest.py from known_findings.d/; open entries suppress only their own signature; fixed entries suppress nothing',
+       'findings': entries,
+       'fixed': [e['line'] for e in entries if e.get('status') == 'fixed']}
+json.dump(doc, open(os.path.join(root, 'known_findings.json'), 'w'), indent=1)
 print('claimed', sorted(claimed), 'unclaimed', [x['property_id'] for x in na])
